@@ -362,8 +362,7 @@ def render_vmodule(case, cx):
             elif k == "plain":
                 out.append(pad + "$out.p = 1;")
             elif k == "userdecl":
-                u = fresh("u")
-                out.append(pad + f'const {it["name"]} = "user{it["name"]}"; $out.{u} = {it["name"]};')
+                out.append(pad + f'const {it["name"]} = "user{it["name"]}"; $out.u{it["name"]} = {it["name"]};')
             elif k == "fn":
                 g = fresh("g")
                 out.append(pad + f"function {g}() {{")
